@@ -177,6 +177,7 @@ class Harness:
         self.services = {}  # pid -> strong ref to service object (until dropped)
         self.tokens = []  # identity -> small int
         self.sections = {"asyncio": 0, "trio": 0, "threading": 0}
+        self.started_units = []  # (service object, unit) of every unit start
         self.segment = {}  # flavour -> coroutine payload currently between two of its checkpoints
         self.section_max = {"asyncio": 0, "trio": 0, "threading": 0}
         self.markers = {}
@@ -294,7 +295,7 @@ class Harness:
 
     def make_service(self, pid):
         spec = self.specs[pid]
-        cls = {"threading": ThreadSvc, "asyncio": AioSvc, "trio": TrioSvc}[spec["flavour"]]
+        cls = SERVICE_CLASSES.get((spec["flavour"], spec.get("svc_class"))) or SERVICE_CLASSES[(spec["flavour"], None)]
         svc = cls(self, pid)
         self.ev("service-created", pid, ctx=self.context())
         if not spec.get("drop_immediately"):
@@ -904,6 +905,67 @@ class TrioSvc(_SvcBase):
             while not getattr(self, "init_done", False):
                 await trio.sleep(0)
         return await self.h.run_async(self.pid, (), {}, trio.sleep, trio.Cancelled, mode="service")
+
+
+# observation only: which unit of a service is being started - the one the instance carries, or one
+# that a later decorator's __new__ wrapper has superseded (classes decorated twice, see below)
+from cobald.daemon.runners.service import ServiceUnit as _ServiceUnit  # noqa: E402
+
+_orig_unit_start = _ServiceUnit.start
+
+
+def _observed_unit_start(self, *args, **kwargs):
+    svc = self.service()
+    h = CURRENT["h"]
+    if svc is not None and h is not None:
+        # started units are kept (a started unit is never started again, keeping it changes nothing);
+        # whether it still is the unit its service carries is looked at when the run is judged
+        h.started_units.append((svc, self))
+    return _orig_unit_start(self, *args, **kwargs)
+
+
+_ServiceUnit.start = _observed_unit_start
+
+
+# unusual but legal ways of declaring a service: the flavour a class was decorated with last counts
+@service(flavour=trio)
+class TrioOverAioSvc(AioSvc):
+    run = TrioSvc.run
+
+
+@service(flavour=asyncio)
+class AioOverTrioSvc(TrioSvc):
+    run = AioSvc.run
+
+
+@service(flavour=asyncio)
+class AioOverAioSvc(AioSvc):
+    pass
+
+
+@service(flavour=trio)
+class TrioOverTrioSvc(TrioSvc):
+    pass
+
+
+class SubThreadSvc(ThreadSvc):
+    pass
+
+
+class SubAioSvc(AioSvc):
+    pass
+
+
+class SubTrioSvc(TrioSvc):
+    pass
+
+
+SERVICE_CLASSES = {
+    ("threading", None): ThreadSvc, ("asyncio", None): AioSvc, ("trio", None): TrioSvc,
+    ("threading", "subclass"): SubThreadSvc, ("asyncio", "subclass"): SubAioSvc, ("trio", "subclass"): SubTrioSvc,
+    ("asyncio", "redecorated-same"): AioOverAioSvc, ("trio", "redecorated-same"): TrioOverTrioSvc,
+    ("asyncio", "redecorated-other"): AioOverTrioSvc, ("trio", "redecorated-other"): TrioOverAioSvc,
+}
 
 
 def _exc_text(record):
